@@ -186,6 +186,8 @@ pub mod op;
 #[cfg(test)]
 pub mod proptest_strategy;
 pub mod repr;
+#[cfg(feature = "verif")]
+pub mod verif;
 
 pub use repr::{
     AdjacencyList,
